@@ -52,6 +52,7 @@ Met in three further rounds of independently written refactoring patches (stored
 from __future__ import annotations
 
 import ast
+from fractions import Fraction
 
 from . import e2_formula as F
 from .core import Unsupported
@@ -241,6 +242,44 @@ def strip(v, names=("astype",)):
         return v
 
 
+def rewrite(v, f):
+    """v with every application name(args) replaced, innermost first, by f(name, args) (a value; None: keep the application)"""
+    if isinstance(v, (tuple, list)):
+        return type(v)(rewrite(x, f) for x in v) if not isinstance(v, Rec) else v
+    if v is None or is_unknown(v):
+        return v
+    memo = {}
+
+    def atom(a):
+        if a in memo:
+            return memo[a]
+        d = F.atom_desc(a)
+        r = _atom_value(a)
+        if d[0] == "fn":
+            args = [k if isinstance(k, str) else poly(F._poly_from_key(k[1])) / poly(F._poly_from_key(k[2])) for k in d[2]]
+            r = f(d[1], args)
+            if r is None:
+                r = F.fn(d[1], *args)
+        memo[a] = r
+        return r
+
+    def poly(p):
+        res = F.const(0)
+        for m, c in p.t.items():
+            term = F.const(c)
+            for a, e in m:
+                term = term * atom(a) ** e
+            res = res + term
+        return res
+
+    return poly(v.n) / poly(v.d)
+
+
+def size_forms(x):
+    """the spellings of `number of items of x` (rows of a 2-D array)"""
+    return [F.fn("attr:size", x), F.fn("call:len", x), F.fn("idx", F.fn("attr:shape", x), F.const(0))]
+
+
 # ---------------------------------------------------------------------------------------------------------------- atoms
 _LITERALS = ("None", "True", "False")
 
@@ -309,6 +348,23 @@ def _count_true(v):
         i = app(a[0], "idx")
         if i and const_of(i[1]) == 0 and app(i[0], "nonzero") and is_boolean(app(i[0], "nonzero")[0]):
             return app(i[0], "nonzero")[0]
+        # positions of A that are not / are also positions of B: the true elements of A & ~B / A & B
+        for fn_, neg in (("call:np.setdiff1d", True), ("call:np.intersect1d", False)):
+            sd = app(a[0], fn_)
+            if sd and len(sd) >= 2:
+                ms = [_positions_of(x) for x in sd[:2]]
+                if ms[0] is not None and ms[1] is not None and all(app(k, "kw:assume_unique") for k in sd[2:]):
+                    x, y = ms[0], (F.fn("invert", ms[1]) if neg else ms[1])
+                    x, y = (x, y) if repr(vkey(x)) <= repr(vkey(y)) else (y, x)
+                    return F.fn("mask:BitAnd", x, y)
+    return None
+
+
+def _positions_of(v):
+    """M when v is the vector of positions of the true elements of the boolean vector M (np.flatnonzero(M), np.nonzero(M)[0])"""
+    i = app(v, "idx")
+    if i and const_of(i[1]) == 0 and app(i[0], "nonzero") and is_boolean(app(i[0], "nonzero")[0]):
+        return app(i[0], "nonzero")[0]
     return None
 
 
@@ -376,6 +432,7 @@ _UF_ARITH = {"add": ast.Add, "subtract": ast.Sub, "sub": ast.Sub, "multiply": as
              "left_shift": ast.LShift, "lshift": ast.LShift, "right_shift": ast.RShift, "rshift": ast.RShift}
 _LIST_MUTATORS = {"append", "extend", "insert", "pop", "remove", "clear", "sort", "reverse", "update", "add", "discard", "setdefault", "popitem"}
 EMPTY = F.sym("@empty")            # an array with no element (np.empty(0), np.zeros((0, 2)), np.array([]), ...)
+UNINIT = F.sym("@uninit")          # the content of a buffer that was allocated and not written (np.empty((r, c)))
 MAX_UNROLL = 16
 
 
@@ -398,6 +455,53 @@ def is_boolean(v):
     if nm == "astype" and len(a) == 2:
         return sym_of(a[1]) in ("bool", "np.bool_")
     return False
+
+
+def column(x, j):
+    """column j of the 2-D array x: x[:, j]"""
+    return F.fn("idx", need(x), F.fn("tuple", F.fn("slice", F.sym("None"), F.sym("None"), F.sym("None")), need(j)))
+
+
+def _nonzero_test(x):
+    """any(a - b): some element of a - b is not zero - the test  a != b  element by element"""
+    if is_unknown(x) or isinstance(x, tuple) or is_boolean(x):
+        return x
+    try:
+        if not x.d.is_const() or len(x.n.t) != 2:
+            return x
+        (m1, c1), (m2, c2) = x.n.t.items()
+        if c1 != -c2 or not m1 or not m2:
+            return x
+        a, b = F.Rat(F.Poly({m1: Fraction(1)})), F.Rat(F.Poly({m2: Fraction(1)}))
+    except Exception:  # noqa
+        return x
+    if repr(vkey(a)) > repr(vkey(b)):
+        a, b = b, a
+    return F.fn("cmp:NotEq", a, b)
+
+
+def _sized(n):
+    """X when the value n is the number of items of X: len(X), X.shape[0], X.size"""
+    u = unfn_m(n)
+    if u is None:
+        return None
+    if u[0] in ("call:len", "attr:size") and len(u[1]) == 1 and not isinstance(u[1][0], str):
+        return u[1][0]
+    if u[0] == "idx" and len(u[1]) == 2 and const_of(u[1][1]) == 0 and app(u[1][0], "attr:shape"):
+        return app(u[1][0], "attr:shape")[0]
+    return None
+
+
+def _truth_index(ix):
+    """the truth value t when the index value ix is one of  t,  bool(t),  int(t),  int(bool(t))  with t boolean by construction (bool(x): x)"""
+    u = unfn_m(ix)
+    if u is not None and u[0] == "call:bool" and len(u[1]) == 1:
+        return u[1][0]
+    if u is not None and u[0] in ("call:int", "call:operator.index") and len(u[1]) == 1:
+        return _truth_index(u[1][0])
+    return ix if is_boolean(ix) else None
+
+
 _ATTRFN = {"np.shape": "shape", "np.size": "size", "np.ndim": "ndim"}
 _CONVERT = {"np.array", "np.asarray", "np.ascontiguousarray", "np.asanyarray", "np.require"}
 
@@ -508,6 +612,60 @@ def _str_of(x):
     return F.fn("call:str", need(x))
 
 
+class Closure(Unknown):
+    """a lambda bound to a local: called with the values of its arguments (free names are read when it is called, as Python does)"""
+
+    def __init__(self, node, defaults):
+        super().__init__("a lambda (followed when it is called by name)")
+        self.node, self.defaults = node, defaults
+
+
+class Partial(Unknown):
+    """functools.partial(f, *args, **kw) bound to a local: calling it is calling f with the stored arguments first"""
+
+    def __init__(self, func, pos, kw):
+        super().__init__("a functools.partial object (followed when it is called by name)")
+        self.func, self.pos, self.kw = func, pos, kw
+
+
+def _has_yield(fn):
+    from .e1_srcmodel import walk_no_nested
+    return any(isinstance(n, (ast.Yield, ast.YieldFrom)) for n in walk_no_nested(fn))
+
+
+class _Degen(ast.NodeTransformer):
+    """a generator function read as the function that returns the list of what it yields: `yield x` -> `@yield.append(x)`,
+    `yield from X` -> `@yield.extend(X)` (nested functions are left alone)"""
+
+    def visit_FunctionDef(self, node):
+        return node
+
+    visit_AsyncFunctionDef = visit_Lambda = visit_FunctionDef
+
+    def visit_Expr(self, node):
+        v = node.value
+        if isinstance(v, (ast.Yield, ast.YieldFrom)):
+            arg = v.value if v.value is not None else ast.Constant(value=None)
+            call = ast.Call(func=ast.Attribute(value=ast.Name(id="@yield", ctx=ast.Load()), attr="append" if isinstance(v, ast.Yield) else "extend",
+                                               ctx=ast.Load()), args=[arg], keywords=[])
+            return ast.fix_missing_locations(ast.copy_location(ast.Expr(value=call), node))
+        return node
+
+
+def _degen_body(fn):
+    body = fn.__dict__.get("_c18_degen")
+    if body is None:
+        import copy
+        t = _Degen()
+        body = []
+        for st in fn.body:
+            st2 = copy.deepcopy(st)
+            r = t.visit(st2) if not isinstance(st2, (ast.FunctionDef, ast.AsyncFunctionDef)) else st2
+            body.append(r)
+        fn.__dict__["_c18_degen"] = body
+    return body
+
+
 class PathEval(AutoEvaluator):
     def __init__(self, fn, ctx, rel, decisions, trace, sites, depth=0, env=None, qual=None):
         super().__init__(fn, src=ctx.src, cond=self._oracle, call=self._hook, binop=_binop18, env=env)
@@ -517,6 +675,7 @@ class PathEval(AutoEvaluator):
         self.decisions, self.trace, self.sites = decisions, trace, sites
         self.raised = None
         self._bv = 0
+        self._positions = []       # (position symbol @i<n>, sequence walked by position, its item @v<n>) of the index loops being evaluated
         self._brk = self._cont = False
         self.escaped = []          # values handed to calls whose result is thrown away (an opaque call statement may change them in place)
         self.module_consts = _consts(ctx, rel)
@@ -528,7 +687,13 @@ class PathEval(AutoEvaluator):
     def _oracle(self, test, ev):
         if isinstance(test, ast.BoolOp) or (isinstance(test, ast.UnaryOp) and isinstance(test.op, ast.Not)):
             return None
-        v = truthy(self.ev(test))
+        return self._decide_value(self.ev(test), test)
+
+    def _decide_value(self, v, test):
+        """truth of a test *value*.  A value that is itself `a and b` / `a or b` (a flag computed as an expression and tested later, a
+        helper that returns one) is decided part by part with the short circuit of the operator, exactly like the test `if a and b:` written
+        in place - the regimes and the atoms the rules see do not depend on where the combination is spelled"""
+        v = truthy(v)
         canon, pol, truth = norm_atom(v)
         if truth is not None:
             return truth
@@ -536,6 +701,20 @@ class PathEval(AutoEvaluator):
             key = ("src", ast.unparse(test))
             pol = True
         else:
+            u = unfn_m(canon)
+            if u is not None and u[0] == "invert" and len(u[1]) == 1 and is_boolean(u[1][0]):
+                r = not self._decide_value(u[1][0], test)          # ~flag on a boolean is `not flag`
+                return r if pol else (not r)
+            if u is not None and u[0] in ("mask:BitAnd", "mask:BitOr") and len(u[1]) == 2 and all(is_boolean(x) for x in u[1]):
+                u = ("bool:And" if u[0] == "mask:BitAnd" else "bool:Or", u[1])     # `&` / `|` of two truth values: `and` / `or` without the short circuit
+            if u is not None and u[0] in ("bool:And", "bool:Or") and u[1] and not any(isinstance(x, str) for x in u[1]):
+                isand = u[0] == "bool:And"
+                r = isand
+                for part in u[1]:
+                    if self._decide_value(part, test) is (not isand):
+                        r = not isand
+                        break
+                return r if pol else (not r)
             key = vkey(canon)
         d = self.decisions.get(key)
         if d is None:
@@ -581,6 +760,12 @@ class PathEval(AutoEvaluator):
         if isinstance(st, ast.Match):
             self._match(st)
             return
+        if isinstance(st, ast.Assign) and len(st.targets) == 1 and isinstance(st.targets[0], ast.Name) and isinstance(st.value, ast.Call) \
+                and dotted(st.value.func) in ("functools.partial", "partial") and st.targets[0].id not in self.pinned:
+            pt = self._partial(st.value)
+            if pt is not None:
+                self.env[st.targets[0].id] = pt
+                return
         if isinstance(st, ast.AugAssign) and isinstance(st.op, ast.Add) and isinstance(st.target, ast.Name) \
                 and isinstance(st.value, (ast.List, ast.Tuple)) and isinstance(self.env.get(st.target.id), tuple):
             # L += [x]  on a local list: concatenation (the generic evaluator would add element by element)
@@ -663,6 +848,8 @@ class PathEval(AutoEvaluator):
             self.env[nm] = cur + (self.ev(call.args[0]),)
         elif f.attr == "extend" and len(call.args) == 1 and not call.keywords and isinstance(self.ev(call.args[0]), tuple):
             self.env[nm] = cur + self.ev(call.args[0])
+        elif f.attr == "extend" and len(call.args) == 1 and not call.keywords and cur == () and head(self.ev(call.args[0])) == "comp":
+            self.env[nm] = self.ev(call.args[0])            # an empty list extended by a comprehension holds the comprehension's items
         elif f.attr in _LIST_MUTATORS:
             self.env[nm] = Unknown(f"list changed by .{f.attr}()")
         else:
@@ -718,7 +905,7 @@ class PathEval(AutoEvaluator):
     def _loop_as_comp(self, st):
         """a loop (nest) that only appends to local lists is the comprehension with the same generators and conditions:
         `L = []` + `for a in A: for b in B: if c: L.append(e)`  gives L the value of  `[e for a in A for b in B if c]`"""
-        saved, bv = dict(self.env), self._bv
+        saved, bv, npos = dict(self.env), self._bv, len(self._positions)
         accs = {}
         try:
             ok = self._comp_for(st, [], accs)
@@ -726,13 +913,20 @@ class PathEval(AutoEvaluator):
             ok = False
         finally:
             self.env, self._bv = saved, bv
+        positions, self._positions = self._positions, self._positions[:npos]
         if not ok or not accs:
             return False
         for nm, sites in accs.items():
             if saved.get(nm) == () and len(sites) == 1:
                 elt, gens = sites[0]
                 try:
-                    self.env[nm] = F.fn("comp", wrap(elt), *[F.fn("gen", *g) for g in gens])
+                    v = F.fn("comp", wrap(elt), *[F.fn("gen", *g) for g in gens])
+                    self._positions = positions
+                    try:
+                        v = self._fold_positions(v)
+                    finally:
+                        self._positions = positions[:npos]
+                    self.env[nm] = v
                 except Unsupported as e:
                     self.env[nm] = Unknown(str(e))
             else:
@@ -742,16 +936,87 @@ class PathEval(AutoEvaluator):
                 self.env[n] = Unknown("assigned inside a loop")
         return True
 
+    def _bind_loop(self, iter_node, target):
+        """bind the target of `for target in iter` to the loop's bound variable @v<n> and return the value iterated over (Unknown: not lowered).
+        `for k, x in enumerate(X)` iterates X with k the position @i<n> of the item;  `for k in range(len(X))` (X.shape[0], X.size) iterates
+        X by position: k is @i<n> and X[k] is the item (`_fold_positions`) - three spellings of one loop"""
+        n = self._bv
+        b, pos = F.sym(f"@v{n}"), F.sym(f"@i{n}")
+        if isinstance(iter_node, ast.Call) and isinstance(iter_node.func, ast.Name) and iter_node.func.id not in self.env and not iter_node.keywords \
+                and len(iter_node.args) == 1 and not isinstance(iter_node.args[0], ast.Starred):
+            if iter_node.func.id == "enumerate" and isinstance(target, (ast.Tuple, ast.List)) and len(target.elts) == 2:
+                it = self._ev(iter_node.args[0])
+                if is_unknown(it):
+                    return it
+                self._bv += 1
+                self._bind(target.elts[0], pos)
+                self._bind(target.elts[1], b)
+                return it
+            if iter_node.func.id == "range" and isinstance(target, ast.Name):
+                nval = self._ev(iter_node.args[0])
+                x = _sized(nval)
+                if x is not None:
+                    self._bv += 1
+                    self._bind(target, pos)
+                    self._positions.append((pos, x, b))
+                    return x
+        it = self._ev(iter_node)
+        if is_unknown(it):
+            return it
+        self._bv += 1
+        self._bind(target, b)
+        return it
+
+    def _fold_positions(self, v):
+        """X[@i] is the item @v of the loop that walks X by position; X[@i, j] is @v[j]"""
+        if not self._positions or is_unknown(v):
+            return v
+        table = list(self._positions)
+
+        def f(name, args):
+            if name != "idx" or len(args) != 2 or isinstance(args[0], str) or isinstance(args[1], str):
+                return None
+            for pos, x, b in table:
+                if not same(args[0], x):
+                    continue
+                if same(args[1], pos):
+                    return b
+                t = app(args[1], "tuple")
+                if t and len(t) >= 2 and same(t[0], pos):
+                    return F.fn("idx", b, t[1] if len(t) == 2 else F.fn("tuple", *t[1:]))
+            return None
+        try:
+            return rewrite(v, f)
+        except Unsupported:
+            return v
+
     def _comp_for(self, st, gens, accs):
         if st.orelse:
             return False
-        it = self._ev(st.iter)
+        it = self._bind_loop(st.iter, st.target)
         if is_unknown(it):
             return False
-        b = F.sym(f"@v{self._bv}")
-        self._bv += 1
-        self._bind(st.target, b)
         return self._comp_stmts(st.body, gens + [[wrap(it)]], accs)
+
+    def _as_append_loop(self, lst, arg, loc):
+        """`L.extend(e for t in it if c)` is the loop nest `for t in it: if c: L.append(e)`; `L.extend(X)` is `for x in X: L.append(x)`"""
+        def app_stmt(e):
+            return ast.Expr(value=ast.Call(func=ast.Attribute(value=ast.Name(id=lst, ctx=ast.Load()), attr="append", ctx=ast.Load()), args=[e], keywords=[]))
+        if isinstance(arg, (ast.GeneratorExp, ast.ListComp)):
+            body = [app_stmt(arg.elt)]
+            for g in reversed(arg.generators):
+                if g.is_async:
+                    return None
+                for c in reversed(g.ifs):
+                    body = [ast.If(test=c, body=body, orelse=[])]
+                body = [ast.For(target=g.target, iter=g.iter, body=body, orelse=[])]
+            loop = body[0]
+        elif isinstance(arg, (ast.List, ast.Tuple)) and not any(isinstance(e, ast.Starred) for e in arg.elts):
+            return [ast.fix_missing_locations(ast.copy_location(app_stmt(e), loc)) for e in arg.elts]
+        else:
+            tmp = f"@x{self._bv}"
+            loop = ast.For(target=ast.Name(id=tmp, ctx=ast.Store()), iter=arg, body=[app_stmt(ast.Name(id=tmp, ctx=ast.Load()))], orelse=[])
+        return [ast.fix_missing_locations(ast.copy_location(loop, loc))]
 
     def _comp_stmts(self, stmts, gens, accs):
         for s in stmts:
@@ -771,6 +1036,17 @@ class PathEval(AutoEvaluator):
                 if is_unknown(elt):
                     return False
                 accs.setdefault(s.value.func.value.id, []).append((elt, [list(g) for g in gens]))
+            elif isinstance(s, ast.Expr) and isinstance(s.value, ast.Call) and isinstance(s.value.func, ast.Attribute) and s.value.func.attr == "extend" \
+                    and isinstance(s.value.func.value, ast.Name) and len(s.value.args) == 1 and not s.value.keywords \
+                    and not isinstance(s.value.args[0], ast.Starred):
+                loops = self._as_append_loop(s.value.func.value.id, s.value.args[0], s)
+                if loops is None or not self._comp_stmts(loops, gens, accs):
+                    return False
+            elif isinstance(s, ast.AugAssign) and isinstance(s.op, ast.Add) and isinstance(s.target, ast.Name) \
+                    and (s.target.id in accs or self.env.get(s.target.id) == ()):
+                loops = self._as_append_loop(s.target.id, s.value, s)          # L += X  on a list is L.extend(X)
+                if loops is None or not self._comp_stmts(loops, gens, accs):
+                    return False
             elif isinstance(s, ast.Assign) and len(s.targets) == 1 and isinstance(s.targets[0], ast.Name) and s.targets[0].id not in accs:
                 v = self._ev(s.value)
                 if is_unknown(v):
@@ -815,8 +1091,10 @@ class PathEval(AutoEvaluator):
             return
         if isinstance(target, (ast.Tuple, ast.List)) and not isinstance(v, tuple) and not is_unknown(v) \
                 and not any(isinstance(t, ast.Starred) for t in target.elts):
+            tr = app(v, "attr:T")
             for j, t in enumerate(target.elts):
-                self._assign(t, F.fn("idx", need(v), F.const(j)), st)
+                # a, b = X.T : the columns of X
+                self._assign(t, column(tr[0], F.const(j)) if tr else F.fn("idx", need(v), F.const(j)), st)
             return
         return super()._assign(target, v, st, aug)
 
@@ -839,6 +1117,15 @@ class PathEval(AutoEvaluator):
             return F.fn("cmp:" + type(node.ops[0]).__name__, need(a), wrap(b))           # x in (a, b): the literal collection as one value
         if isinstance(node, (ast.ListComp, ast.GeneratorExp, ast.SetComp)):
             return self._comp(node)
+        if isinstance(node, ast.Lambda):
+            a = node.args
+            if a.vararg or a.kwarg or a.posonlyargs or a.kwonlyargs:
+                return Unknown("lambda signature")
+            return Closure(node, [self.ev(x) for x in a.defaults])
+        if isinstance(node, ast.Subscript) and not isinstance(node.slice, (ast.Slice, ast.Tuple)):
+            r = self._select(node)
+            if r is not NotImplemented:
+                return r
         if isinstance(node, ast.Constant) and isinstance(node.value, bool):
             return F.sym(repr(node.value))
         if isinstance(node, ast.Dict) and not node.keys:
@@ -863,8 +1150,83 @@ class PathEval(AutoEvaluator):
             return x if is_unknown(x) or isinstance(x, tuple) else _str_of(x)
         return super()._ev(node)
 
+    def _select(self, node):
+        """`(a, b)[flag]` / `{True: b, False: a}[flag]` with a truth value as the index is the conditional expression `b if flag else a`: the
+        regime is split on the flag like on any other test;  `X.T[j]` with a constant j is column j of X"""
+        if isinstance(node.value, ast.Name) and node.value.id in self.buffers:
+            return NotImplemented
+        if isinstance(node.value, (ast.Tuple, ast.List, ast.Dict)) or (isinstance(node.value, ast.Name) and isinstance(self.env.get(node.value.id), (tuple, DictValue))):
+            base = self._ev(node.value)
+            pair = None
+            if isinstance(base, tuple) and not isinstance(base, Rec) and len(base) == 2:
+                pair = (base[0], base[1])
+            elif isinstance(base, DictValue) and len(base.d) == 2 and all(k in (0, 1) for k in base.d) and {bool(k) for k in base.d} == {True, False}:
+                pair = (next(v for k, v in base.d.items() if not k), next(v for k, v in base.d.items() if k))
+            if pair is None:
+                return NotImplemented
+            ix = self._ev(node.slice)
+            if is_unknown(ix) or isinstance(ix, tuple) or const_of(ix) is not None:
+                return NotImplemented
+            t = _truth_index(ix)
+            if t is None:
+                return NotImplemented
+            return pair[1] if self._decide_value(t, node.slice) else pair[0]
+        if isinstance(node.value, ast.Attribute) and node.value.attr == "T":
+            base = self._ev(node.value)
+            j = self._ev(node.slice)
+            a = app(base, "attr:T") if not is_unknown(base) and not isinstance(base, tuple) else None
+            if a and not is_unknown(j) and not isinstance(j, tuple) and const_of(j) is not None:
+                return column(a[0], j)
+        return NotImplemented
+
+    def _call_closure(self, c, node):
+        pos, kw = self._args(node)
+        names = [x.arg for x in c.node.args.args]
+        if len(pos) > len(names) or any(k not in names for k in kw) or any(k in names[:len(pos)] for k in kw):
+            raise Unsupported("lambda call shape")
+        bound = dict(zip(names, pos))
+        bound.update(kw)
+        for nm, dv in zip(names[len(names) - len(c.defaults):], c.defaults):
+            bound.setdefault(nm, dv)
+        if set(bound) != set(names):
+            raise Unsupported("lambda call misses an argument")
+        saved = dict(self.env)
+        try:
+            self.env.update(bound)
+            return self._ev(c.node.body)
+        finally:
+            self.env = saved
+
+    def _partial(self, node):
+        """the Partial object for a call functools.partial(f, *args, **kw) with known argument values, else None"""
+        d = dotted(node.func)
+        if d.split(".")[0] in self.env or not node.args or any(isinstance(a, ast.Starred) for a in node.args) or not all(k.arg for k in node.keywords):
+            return None
+        pos = [self.ev(a) for a in node.args[1:]]
+        kw = {k.arg: self.ev(k.value) for k in node.keywords}
+        if any(is_unknown(v) for v in pos + list(kw.values())):
+            return None
+        return Partial(node.args[0], pos, kw)
+
+    def _call_partial(self, pt, node):
+        saved = dict(self.env)
+        try:
+            args, kws = [], []
+            for k, v in enumerate(pt.pos):
+                self.env[f"@p{k}"] = v
+                args.append(ast.Name(id=f"@p{k}", ctx=ast.Load()))
+            given = {k.arg for k in node.keywords}
+            for k, v in pt.kw.items():
+                if k not in given:
+                    self.env[f"@pk_{k}"] = v
+                    kws.append(ast.keyword(arg=k, value=ast.Name(id=f"@pk_{k}", ctx=ast.Load())))
+            call = ast.Call(func=pt.func, args=args + list(node.args), keywords=kws + list(node.keywords))
+            return self._ev(ast.fix_missing_locations(ast.copy_location(call, node)))
+        finally:
+            self.env = saved
+
     def _comp(self, node):
-        saved, bv = dict(self.env), self._bv
+        saved, bv, npos = dict(self.env), self._bv, len(self._positions)
         try:
             if len(node.generators) == 1 and not node.generators[0].ifs and not isinstance(node, ast.SetComp):
                 # a comprehension over a sequence whose items are known is the list of the element values
@@ -877,12 +1239,9 @@ class PathEval(AutoEvaluator):
                     return tuple(out)
             gens = []
             for g in node.generators:
-                it = self._ev(g.iter)
+                it = self._bind_loop(g.iter, g.target)
                 if is_unknown(it):
                     return it
-                b = F.sym(f"@v{self._bv}")
-                self._bv += 1
-                self._bind(g.target, b)
                 conds = [self._ev(c) for c in g.ifs]
                 if any(is_unknown(c) for c in conds):
                     return next(c for c in conds if is_unknown(c))
@@ -890,12 +1249,13 @@ class PathEval(AutoEvaluator):
             elt = self._ev(node.elt)
             if is_unknown(elt):
                 return elt
-            return F.fn("comp", wrap(elt), *gens)
+            return self._fold_positions(F.fn("comp", wrap(elt), *gens))
         except Unsupported as e:
             return Unknown(str(e))
         finally:
             self.env = saved
             self._bv = bv
+            del self._positions[npos:]
 
     def _bind(self, target, v):
         if isinstance(target, ast.Name):
@@ -983,11 +1343,18 @@ class PathEval(AutoEvaluator):
                     r = Rec(vals[x] for x in fields)
                     r.fields = tuple(fields)
                     return r
-        # tuple(x) / list(x) of a sequence whose items are known
+        # a lambda / functools.partial object bound to a local
+        if isinstance(f, ast.Name) and isinstance(self.env.get(f.id), Closure):
+            return self._call_closure(self.env[f.id], node)
+        if isinstance(f, ast.Name) and isinstance(self.env.get(f.id), Partial):
+            return self._call_partial(self.env[f.id], node)
+        # tuple(x) / list(x) of a sequence whose items are known; list(<comprehension>) holds the items of the comprehension
         if d in ("tuple", "list") and len(node.args) == 1 and not node.keywords and d not in self.env and not isinstance(node.args[0], ast.Starred):
             x = self.ev(node.args[0])
             if isinstance(x, tuple):
                 return tuple(x)
+            if not is_unknown(x) and head(x) == "comp":
+                return x
         # a local bound to a method of a value (`level = idx.get_level_values`): calling it is the method call
         if isinstance(f, ast.Name) and f.id in self.env and not isinstance(self.env[f.id], tuple):
             h = unfn_m(self.env[f.id])
@@ -1036,6 +1403,11 @@ class PathEval(AutoEvaluator):
                 return F.fn("cmp:Eq", need(a), F.const(0))
             return F.fn("invert", need(a))
         # np.take(a, i) / a.take(i) is a[i] (no axis: the flattened array - the rules meet it on 1-D data)
+        if node.keywords and len(node.keywords) == 1 and node.keywords[0].arg == "axis" and (leaf in ("take", "compress") or meth in ("take", "compress")) \
+                and isinstance(node.keywords[0].value, ast.Constant) and node.keywords[0].value.value == 0:
+            # axis=0: rows are selected, as X[i] does
+            plain = ast.copy_location(ast.Call(func=node.func, args=node.args, keywords=[]), node)
+            return self._hook2(plain)
         if (d in ("np.take", "numpy.take") and plain2) or (on_value and meth == "take" and plain1):
             pos, _ = self._args(node)
             base, ix = (pos[0], pos[1]) if meth != "take" or not on_value else (self._need(f.value), pos[0])
@@ -1049,13 +1421,25 @@ class PathEval(AutoEvaluator):
                 return F.fn("idx", need(base), need(ix))
         # arrays without elements
         if (d in ZERO_CTORS or d in ONE_CTORS or d in ("np.full", "np.arange", "np.ndarray")) and not d.endswith("_like"):
-            if node.args and not isinstance(node.args[0], ast.Starred):
-                shp = self.ev(node.args[0])
+            shape_node = node.args[0] if node.args else next((k.value for k in node.keywords if k.arg == "shape"), None)
+            if shape_node is not None and not isinstance(shape_node, ast.Starred):
+                shp = self.ev(shape_node)
                 dims = list(shp) if isinstance(shp, tuple) else [shp]
                 if d == "np.arange" and len(node.args) != 1:
                     dims = []
                 if any(const_of(x) == 0 for x in dims):
                     return EMPTY
+                if d != "np.arange" and len(dims) >= 2 and not any(is_unknown(x) or isinstance(x, tuple) for x in dims):
+                    # a buffer with more than one axis keeps its shape (rows x columns): alloc(fill, shape); `@uninit` for np.empty
+                    if d in ("np.empty", "np.ndarray"):
+                        fill = UNINIT
+                    elif d == "np.full":
+                        fnode = node.args[1] if len(node.args) > 1 else next((k.value for k in node.keywords if k.arg == "fill_value"), None)
+                        fill = self.ev(fnode) if fnode is not None else Unknown("np.full without a fill value")
+                    else:
+                        fill = F.const(0 if d in ZERO_CTORS else 1)
+                    if not is_unknown(fill) and not isinstance(fill, tuple):
+                        return F.fn("alloc", need(fill), wrap(tuple(dims)))
         if d in _CONVERT and plain_first(node) and is_empty(self.ev(node.args[0])):
             return EMPTY
         # "{}".format(x) / format(x) / repr(x): the text of one value
@@ -1076,9 +1460,10 @@ class PathEval(AutoEvaluator):
         # reductions
         if d in _REDUCE and len(node.args) == 1 and not node.keywords:
             (x,), _ = self._args(node)
-            return F.fn(_REDUCE[d], wrap(x))
+            return F.fn(_REDUCE[d], wrap(_nonzero_test(x) if _REDUCE[d] == "any" else x))
         if on_value and meth in ("any", "all") and not node.args and not node.keywords:
-            return F.fn(meth, wrap(self._need(f.value)))
+            x = self._need(f.value)
+            return F.fn(meth, wrap(_nonzero_test(x) if meth == "any" else x))
         # nonzero
         if d in ("np.nonzero", "np.where") and len(node.args) == 1 and not node.keywords:
             (x,), _ = self._args(node)
@@ -1201,11 +1586,19 @@ class PathEval(AutoEvaluator):
         env.update(bound)
         sub = PathEval(callee, self.ctx, rel or self.rel, self.decisions, self.trace, self.sites, self.depth + 1, env=env)
         sub.escaped = self.escaped
-        sub.run(callee.body)
+        gen = _has_yield(callee)
+        if gen:
+            # a generator function: the call stands for the sequence of the values it yields, in the order it yields them
+            sub.env["@yield"] = ()
+            sub.run(_degen_body(callee))
+        else:
+            sub.run(callee.body)
         if sub.raised is not None:
             self.raised = sub.raised
             self.done = True
             return Unknown("the helper raised")
+        if gen:
+            return sub.env.get("@yield", Unknown("generator not lowered"))
         if sub.returns and sub.returns[-1][0] is not None:
             return sub.returns[-1][0]
         return F.sym("None")
